@@ -400,5 +400,32 @@ func registryStable() (obs, bad string) {
 	if otp.SuiteConfigFromRaws(name) != (otp.SuiteConfig{}) {
 		return obs, "lookup by name of the unregistered " + name + " is not the zero configuration"
 	}
+	// the advertised list is the caller's: filtering it in place / overwriting entries must not change what is advertised next
+	mine := otp.ListSuites()
+	kept := mine[:0]
+	for i, n := range mine {
+		if i%3 == 0 {
+			kept = append(kept, n)
+		}
+	}
+	for i := range mine {
+		mine[i] = "OCRA-1:HOTP-SHA1-6:overwritten-by-the-caller"
+	}
+	_ = kept
+	for round := 0; round < 2; round++ {
+		next := otp.ListSuites()
+		reg := otp.VerifKnownSuites()
+		seen := map[string]bool{}
+		for _, n := range next {
+			if _, ok := reg[n]; !ok || seen[n] {
+				return obs, fmt.Sprintf("after a caller modified the list it was given, ListSuites advertises %q (unknown or duplicate)", n)
+			}
+			seen[n] = true
+		}
+		if len(next) != len(reg) {
+			return obs, fmt.Sprintf("after a caller modified the list it was given, ListSuites advertises %d names, the registry holds %d", len(next), len(reg))
+		}
+		sort.Strings(next) // sorting one's own copy is a modification too
+	}
 	return obs, ""
 }
